@@ -43,16 +43,16 @@ Proof. exact declare_child_fresh. Qed.
    the new map answers every lookup identically whatever the order (renaming by a prefix is injective) *)
 Theorem C10_site_hygienize_locals : forall Val (ord ord' : list (text * Val)) name,
   Permutation ord ord' -> NoDup (keys ord) -> lookup name (hygienize_map ord) = lookup name (hygienize_map ord').
-Proof. intros Val ord ord' name P ND. exact (hygienize_map_order_free Val ord ord' P ND name). Qed.
+Proof. exact site_hygienize_lookup. Qed.
 
 Theorem C10_site_hygienize_token_substs : forall (ord ord' : list (text * text)) name,
   Permutation ord ord' -> NoDup (keys ord) -> lookup name (hygienize_map ord) = lookup name (hygienize_map ord').
-Proof. intros ord ord' name P ND. exact (hygienize_map_order_free text ord ord' P ND name). Qed.
+Proof. exact (site_hygienize_lookup text). Qed.
 
 (* ---- site src/asm/resolver/eval_asm.rs resolve_once: `for (label_name, label_value) in labels.iter() { set_local }` *)
 Theorem C10_site_asm_labels : forall V (ord ord' : list (text * V)) (locals : amap V) name,
   Permutation ord ord' -> NoDup (keys ord) -> lookup name (set_labels ord locals) = lookup name (set_labels ord' locals).
-Proof. intros V ord ord' locals name P ND. exact (set_labels_order_free V ord ord' locals locals P ND (map_equiv_refl locals) name). Qed.
+Proof. exact site_labels_lookup. Qed.
 
 (* the three loops together: everything resolve_encoding can ask of the context an asm-block instruction is resolved in *)
 Theorem C10_site_asm_instruction_ctx : forall Val depth (ol ol' : list (text * Val)) (os os' : list (text * text)) (ob ob' : list (text * Val)),
@@ -67,11 +67,11 @@ Proof. exact asm_ctx_order_free. Qed.
    other: whatever order the NEW container is later iterated in is again one of the `ord` quantified over above *)
 Theorem C10_results_are_maps : forall V (ord : list (text * V)) locals,
   NoDup (keys (hygienize_map ord)) /\ (NoDup (keys locals) -> NoDup (keys (set_labels ord locals))).
-Proof. intros V ord locals. split; [apply hygienize_map_nodup | apply set_labels_nodup]. Qed.
+Proof. exact results_are_maps. Qed.
 
 Theorem C10_equivalent_maps_are_permutations : forall V (m m' : amap V),
   NoDup (keys m) -> NoDup (keys m') -> map_equiv m m' -> Permutation m m'.
-Proof. intro V. exact (@equiv_perm V). Qed.
+Proof. exact (@equiv_perm). Qed.
 
 (* ---- point operations (get / insert / remove / contains_key): their results depend on the lookup function only, and a
    permutation of the entries is the same lookup function *)
@@ -79,10 +79,7 @@ Theorem C10_point_operations : forall V (m m' : amap V),
   (Permutation m m' -> NoDup (keys m) -> map_equiv m m') /\
   (map_equiv m m' -> forall k v, map_equiv (insert k v m) (insert k v m') /\ map_equiv (remove k m) (remove k m') /\
                                 contains_key k m = contains_key k m' /\ lookup k m = lookup k m').
-Proof.
-  intros V m m'. split; [apply lookup_perm|]. intros E k v.
-  repeat split; [apply insert_equiv | apply remove_equiv | apply contains_key_equiv | apply E]; exact E.
-Qed.
+Proof. exact point_operations. Qed.
 
 (* ---- driver.rs: the leftover format parameter.  Current code (fix 3d8d817): no iteration, membership only *)
 Theorem C10_point_leftover_given_order : forall V given (ord ord' : amap V),
